@@ -3,6 +3,7 @@ import BigtoolsModel.FiltersGen
 import BigtoolsModel.ZoomLevels
 import BigtoolsModel.Tiler3
 import BigtoolsModel.ZoomQueryBytes
+import BigtoolsModel.AtomsGen
 /-! # C07 — bigWig zoom levels are faithful reductions of the data
 
 Property theorems (statements copied from the lemma modules, proofs by those lemmas). -/
@@ -95,3 +96,20 @@ theorem C07_source_zoom_filter_is_zKeep (c qs qe : Nat) (r : ZRec) :
   ⟨gen_zoom_filter_0 c qs qe r, gen_zoom_filter_1 c qs qe r⟩
 
 end BBI
+
+namespace Tiler2
+
+/-- **The code's own tiler loop** (`process_val_zoom` in bigwigwrite.rs): the loop body assembled from the expressions in the
+    Rust source — regenerated on every run (`Generated/Atoms.lean`) — is the model's `iter`, for every resolution, value,
+    position and tiler state; the loop's exit test is the model's. `C07_records_are_a_faithful_reduction` is about `iter`. -/
+theorem C07_source_tiler_loop_body_is_the_models (size : Nat) (x : Val) (a : Nat) (st : TSt) :
+    iterGen size x a st = iter repaired size x a st ∧ Gen.wz_done a x.e = decide (a ≥ x.e) :=
+  ⟨gen_wig_tiler_iter size x a st, (gen_tiler_done a x.e).1⟩
+
+/-- **The code's own rule for handing a zoom section over** (regenerated from the source): everything of the value is
+    consumed, no record is live, it was the last value and there are records — or the section holds `items_per_slot` records. -/
+theorem C07_source_zoom_section_handover (a e : Nat) (liveNone isLast recsEmpty : Bool) (n ips : Nat) :
+    Gen.wz_flush a e liveNone isLast recsEmpty n ips = ((decide (a ≥ e) && liveNone && isLast && !recsEmpty) || decide (n = ips)) :=
+  (gen_zoom_section_flush a e liveNone isLast recsEmpty n ips).1
+
+end Tiler2
